@@ -36,3 +36,38 @@ package store
 //@ func (v Value) MarshalJSON() (out []byte, err error)
 //@   modifies alloc, bytes
 //@   ensures isNil(err) && imp(ref(v.RawMessage) != 0, same(out, v.RawMessage)) && imp(ref(v.RawMessage) == 0, bytes(out) == "null")
+//@
+//@ # ================================================================ store handler diffs (C10)
+//@ props C10
+//@ # nonlinear step needed for the matrix indices: multiplication by a non-negative w is monotone
+//@ lemma mulmono(w int, x int, y int)
+//@   requires 0 <= w && 0 <= x && x <= y
+//@   ensures w*x <= w*y && 0 <= w*x
+//@
+//@ func (o *storeHandler) collectionDiff(r res.Resource, before interface{}, after interface{}) (rerr error)
+//@   requires !isNil(r)
+//@   requires small: imp(typeIs(before, "[]store.Value"), len(unbox(before, "[]store.Value")) <= 1073741824) && imp(typeIs(after, "[]store.Value"), len(unbox(after, "[]store.Value")) <= 1073741824)
+//@   modifies all
+//@   callsite Unmarshal#1 json.UnmarshalValues
+//@   callsite Unmarshal#2 json.UnmarshalValues
+//@   ghost loop 1 entry :: set cllen = len(a)
+//@   ghost exit :: assert coherent: imp(isNil(rerr), cllen == len(b))
+//@   loop 1 invariant trim1: 0 <= s && s <= m && s <= n && m == len(a) && n == len(b) && cllen == len(a) && len(a) <= 1073741824 && len(b) <= 1073741824
+//@   loop 2 invariant trim2: 0 <= s && s <= m && s <= n && m <= len(a) && n <= len(b) && len(a) - m == len(b) - n && cllen == len(a) && len(a) <= 1073741824 && len(b) <= 1073741824
+//@   loop 3 invariant cells: forall(k, 0, len(c), 0 <= c[k] && c[k] <= k)
+//@   loop 3 invariant small: len(a) <= 1073741824 && len(b) <= 1073741824
+//@   loop 4 invariant cells: forall(k, 0, len(c), 0 <= c[k] && c[k] <= k)
+//@   loop 4 invariant small: len(a) <= 1073741824 && len(b) <= 1073741824
+//@   loop 5 invariant cells: forall(k, 0, len(c), 0 <= c[k] && c[k] <= k)
+//@   loop 5 invariant small: len(a) <= 1073741824 && len(b) <= 1073741824
+//@   loop 6 invariant small: len(a) <= 1073741824 && len(b) <= 1073741824 && 0 <= rems && rems <= len(aa)
+//@   loop 3 invariant mat: 0 <= i && i <= m && m == len(aa) && n == len(bb) && 0 <= m && 0 <= n && w == m + 1 && len(c) == w*(n+1) && cllen == len(a)
+//@       && 0 <= s && s + len(aa) <= len(a) && len(a) - len(aa) == len(b) - len(bb)
+//@   loop 4 invariant row: 0 <= j && j <= n && 0 <= i && i < m && m == len(aa) && n == len(bb) && 0 <= n && w == m + 1 && len(c) == w*(n+1) && cllen == len(a)
+//@       && 0 <= s && s + len(aa) <= len(a) && len(a) - len(aa) == len(b) - len(bb)
+//@   loop 5 invariant back: 0 <= i && i <= len(aa) && 0 <= j && j <= len(bb) && idx == s + i && 0 <= rems && w == len(aa) + 1 && len(c) == w*(len(bb)+1)
+//@       && 0 <= s && s + len(aa) <= len(a) && len(a) - len(aa) == len(b) - len(bb)
+//@   loop 5 invariant client: cllen == len(a) - rems && i + rems <= len(aa) && len(aa) - i - rems == len(bb) - j - len(adds)
+//@   loop 5 invariant script: forall(q, 0, len(adds), 0 <= adds[q][0] && adds[q][0] <= len(bb) - 1 - q && adds[q][1] + adds[q][2] == s + len(aa) - len(bb) + adds[q][0] + 1 + q && 0 <= adds[q][1] && adds[q][1] <= len(a) && 0 <= adds[q][2] && adds[q][2] <= len(aa))
+//@   loop 6 invariant adding: -1 <= i && i <= l && l == len(adds) - 1 && cllen == len(a) - rems + (l - i) && len(aa) - rems == len(bb) - len(adds) && 0 <= s && s + len(aa) <= len(a) && len(a) - len(aa) == len(b) - len(bb)
+//@   loop 6 invariant script: forall(q, 0, len(adds), 0 <= adds[q][0] && adds[q][0] <= len(bb) - 1 - q && adds[q][1] + adds[q][2] == s + len(aa) - len(bb) + adds[q][0] + 1 + q && 0 <= adds[q][1] && adds[q][1] <= len(a) && 0 <= adds[q][2] && adds[q][2] <= len(aa))
